@@ -1,11 +1,38 @@
 """Which units decide which property (DESIGN.md 7, appendix D.2)."""
-from . import api_ops, seam, walks, config, types_c17, pythonic, tables
+from . import api_ops, seam, walks, config, types_c17, pythonic, tables, wire_community
 
 VC = ("contract-based deductive verification: verification conditions generated on every run from the real ASTs "
       "(symbolic execution of each function against its sidecar contract, callee contracts at the seams) and "
       "discharged by z3 (cvc5 for z3-unknowns); ")
 
 PROPS = {
+    "C05": {
+        "units": [wire_community.units_c05], "level": "other", "design_ref": "7.5",
+        "technique": VC + "the real chain operation -> _send -> plug-in loaders -> message processing -> security model -> "
+                     "PDU framing executed symbolically; the bytes handed to the sender are compared with an RFC-transcribed "
+                     "term over a free BER term algebra",
+        "trusted_base": ["x690 serialisation contract (bytes(obj) = TLV of the class identifier and encode_raw())",
+                         "importlib/pkgutil: a plug-in namespace yields the modules under /repo/src/<namespace>"],
+    },
+    "C06": {
+        "units": [wire_community.units_rx], "level": "other", "design_ref": "7.6",
+        "technique": VC + "V1MPM/V2CMPM.decode and PDU.decode_raw executed on a well-formed RFC message with symbolic leaves "
+                     "and arbitrary definite length forms; registration constants as a contract on data",
+        "trusted_base": ["x690 decode contract on the TLV term algebra (class registered for the identifier octet)"],
+    },
+    "C08": {
+        "units": [wire_community.units_rx, seam.units], "level": "other", "design_ref": "7.8",
+        "technique": VC + "PDU.decode_raw error branch, ErrorResponse.construct/__init__ and the IDENTIFIER table executed for every "
+                     "status and index (symbolic integers); _send forces the lazy value",
+        "trusted_base": ["x690 decode contract on the TLV term algebra"],
+    },
+    "C19": {
+        "units": [wire_community.units_c19, seam.units, pythonic.units], "level": "other", "design_ref": "7.19",
+        "technique": VC + "register_trap_callback's decode closure executed on a well-formed SNMPv2c notification with symbolic "
+                     "leaves: version sniffing, loader, V2CMPM.decode, community check, scheduling of the callback",
+        "trusted_base": ["asyncio: ensure_future schedules the coroutine once; an exception escaping a protocol callback is logged "
+                         "and the endpoint stays registered", "x690 decode contract on the TLV term algebra"],
+    },
     "C16": {
         "units": [tables.units, pythonic.units_tables], "level": "other", "design_ref": "7.16",
         "technique": VC + "util.tablify executed on a symbolic stream (OIDs, values, base length symbolic; stream length "
